@@ -452,12 +452,23 @@ static void *tramp(void *p)
 
 static struct sim_task *task_create(const char *name, void *(*fn)(void *), void *arg, int is_lib)
 {
-	if (G.ntasks >= SIM_MAX_TASKS)
-		sim_fatal(SIM_F_INTERNAL, "too many tasks");
-	struct sim_task *t = &G.tasks[G.ntasks];
+	/* reuse the slot of a task that has finished and been joined (sockets are restarted many times in long runs) */
+	struct sim_task *t = NULL;
+
+	for (int i = 0; i < G.ntasks; i++)
+		if (G.tasks[i].state == T_DONE && G.tasks[i].reaped) {
+			t = &G.tasks[i];
+			break;
+		}
+	if (!t) {
+		if (G.ntasks >= SIM_MAX_TASKS)
+			sim_fatal(SIM_F_INTERNAL, "too many tasks");
+		t = &G.tasks[G.ntasks++];
+	}
+	int id = (int)(t - G.tasks);
 
 	memset(t, 0, sizeof(*t));
-	t->id = G.ntasks++;
+	t->id = id;
 	snprintf(t->name, sizeof(t->name), "%s", name);
 	t->fn = fn;
 	t->arg = arg;
